@@ -3,6 +3,7 @@ package simrt
 import (
 	"runtime"
 	"sync"
+	"sync/atomic"
 	"syscall"
 	"time"
 	"unsafe"
@@ -54,6 +55,11 @@ type RTask struct {
 	parent    int
 	lastSite  int
 	LastErr   error
+	blockedOn unsafe.Pointer // the primitive the task waits for
+	qnext     *RTask         // link in the wait queue of an unbuffered channel
+	queued    bool
+	rv        bool   // woken out of band as the partner of a channel rendezvous
+	syncWord  uint32 // released (atomic store) whenever the task parks: gives the driver a happens-before edge from tasks that never finish
 }
 
 type rMutex struct {
@@ -62,7 +68,62 @@ type rMutex struct {
 	readers int
 }
 
+type rChan struct {
+	key    unsafe.Pointer
+	closed bool
+	sendq  rQueue // tasks waiting to send / to receive on an unbuffered channel
+	recvq  rQueue
+}
+
+// rQueue is a FIFO of tasks, linked through the tasks themselves (no allocation, no limit).
+type rQueue struct{ head, tail *RTask }
+
+//go:norace
+func (q *rQueue) push(t *RTask) {
+	t.qnext, t.queued = nil, true
+	if q.tail == nil {
+		q.head, q.tail = t, t
+	} else {
+		q.tail.qnext = t
+		q.tail = t
+	}
+}
+
+//go:norace
+func (q *rQueue) pop() *RTask {
+	t := q.head
+	if t != nil {
+		q.head = t.qnext
+		if q.head == nil {
+			q.tail = nil
+		}
+		t.qnext, t.queued = nil, false
+	}
+	return t
+}
+
+//go:norace
+func (q *rQueue) remove(t *RTask) {
+	var prev *RTask
+	for x := q.head; x != nil; prev, x = x, x.qnext {
+		if x == t {
+			if prev == nil {
+				q.head = x.qnext
+			} else {
+				prev.qnext = x.qnext
+			}
+			if q.tail == x {
+				q.tail = prev
+			}
+			t.qnext, t.queued = nil, false
+			return
+		}
+	}
+}
+
 type rTables struct {
+	chans       [rTab]rChan
+	sparerChan  rChan
 	mutexes     [rTab]rMutex
 	onces       [rTab]rOnce
 	wgs         [rTab]rWG
@@ -113,6 +174,7 @@ type RSched struct {
 	Overrun        bool
 	Stalled        bool
 	GoCalls        int
+	Leftover       int // goroutines of the library still blocked when the run ended (every caller task had finished)
 	live           int
 	pglobal        [64]int // generate mode: global yield indices at which whoever runs is preempted
 	npglobal       int
@@ -315,6 +377,8 @@ func (rs *RSched) Run(watchdog time.Duration) bool {
 			t := rs.tasks[i]
 			if rs.taskState(t) == stDone {
 				<-t.Done
+			} else {
+				atomic.LoadUint32(&t.syncWord) // acquire: a task that stays behind, blocked
 			}
 		}
 	}
@@ -323,7 +387,7 @@ func (rs *RSched) Run(watchdog time.Duration) bool {
 	if tooManyGoroutines(rs.base + rs.nSnapshot() + 2) {
 		rs.UnownedSeen = true
 	}
-	if ok && !rs.Deadlock {
+	if ok && !rs.Deadlock && rs.Leftover == 0 {
 		rs.closeTaskPipes()
 		syscall.Close(rs.mainRd)
 		syscall.Close(rs.mainWr)
@@ -385,9 +449,15 @@ func (rs *RSched) finish(t *RTask) {
 	t.rd, t.wr = -1, -1
 	next := rs.pickOther("finish", t)
 	if next == nil {
+		// nobody runnable: the run is over. Unfinished caller tasks mean a deadlock; goroutines
+		// of the library that are still blocked (workers of a pool waiting for work) stay behind
 		for i := 0; i < rs.n; i++ {
-			if rs.tasks[i].state != stDone {
-				rs.Deadlock = true
+			if x := rs.tasks[i]; x.state != stDone {
+				if x.parent < 0 {
+					rs.Deadlock = true
+				} else {
+					rs.Leftover++
+				}
 			}
 		}
 		rawWrite(rs.mainWr)
@@ -482,14 +552,36 @@ func (rs *RSched) yield(site, class int) {
 //go:norace
 func (rs *RSched) block(t *RTask) {
 	t.state = stBlocked
+	atomic.StoreUint32(&t.syncWord, 1) // release: what this task did so far happens-before whoever acquires the word
 	next := rs.pickOther("block", t)
 	if next == nil {
-		rs.Deadlock = true
+		for i := 0; i < rs.n; i++ {
+			if x := rs.tasks[i]; x.state != stDone {
+				if x.parent < 0 {
+					rs.Deadlock = true
+				} else {
+					rs.Leftover++
+				}
+			}
+		}
 		rawWrite(rs.mainWr)
 		rawRead(t.rd) // parked for good
 		return
 	}
 	rs.handoff(t, next)
+}
+
+// wakeBlockedOn makes the tasks that wait for primitive p runnable; they re-check their
+// condition when they run. (Waking everybody that is blocked costs a scheduling round trip
+// per task and event: quadratic with a few hundred goroutines on one channel.)
+//
+//go:norace
+func (rs *RSched) wakeBlockedOn(p unsafe.Pointer) {
+	for i := 0; i < rs.n; i++ {
+		if t := rs.tasks[i]; t.state == stBlocked && (t.blockedOn == p || t.blockedOn == nil) {
+			t.state = stRunnable
+		}
+	}
 }
 
 //go:norace
@@ -545,7 +637,9 @@ func (rs *RSched) lock(p unsafe.Pointer, site int, shared bool) {
 	rs.yield(site, 1)
 	m := rs.mutexFor(p)
 	for !(m.owner == nil && (shared || m.readers == 0)) {
+		t.blockedOn = p
 		rs.block(t)
+		t.blockedOn = nil
 		m = rs.mutexFor(p) // the slot may have been released and reused meanwhile
 	}
 	if shared {
@@ -570,7 +664,7 @@ func (rs *RSched) unlock(p unsafe.Pointer, site int, shared bool) {
 	if m.owner == nil && m.readers == 0 {
 		m.key = rTombstone
 	}
-	rs.wakeAllBlocked()
+	rs.wakeBlockedOn(p)
 	rs.yield(site, 1)
 }
 
@@ -719,7 +813,7 @@ func (rs *RSched) wgAdd(p unsafe.Pointer, site, n int) {
 	rs.cur.SyncOps++
 	if g.n <= 0 {
 		g.key = rTombstone
-		rs.wakeAllBlocked()
+		rs.wakeBlockedOn(p)
 	}
 	rs.yield(site, 1)
 }
@@ -730,7 +824,9 @@ func (rs *RSched) wgWait(p unsafe.Pointer, site int) {
 	t.SyncOps++
 	rs.yield(site, 1)
 	for rs.wgFor(p).n > 0 {
+		t.blockedOn = p
 		rs.block(t)
+		t.blockedOn = nil
 	}
 	if g := rs.wgFor(p); g.n == 0 {
 		g.key = rTombstone // looked up only to find it at zero
@@ -792,3 +888,125 @@ func rGo(rs *RSched, site int, f func()) {
 }
 
 var _ sync.Locker
+
+// ---- channels (see chan.go) ----
+
+//go:norace
+func (rs *RSched) chanFor(p unsafe.Pointer, create bool) *rChan {
+	if rs.tabs == nil {
+		if !create {
+			return nil
+		}
+		rs.tabs = &rTables{}
+	}
+	i := rSlot(p)
+	free := -1
+	for n := 0; n < rTab; n++ {
+		j := (i + n) & (rTab - 1)
+		e := &rs.tabs.chans[j]
+		if e.key == p {
+			return e
+		}
+		if e.key == rTombstone {
+			if free < 0 {
+				free = j
+			}
+			continue
+		}
+		if e.key == nil {
+			if free < 0 {
+				free = j
+			}
+			break
+		}
+	}
+	if !create {
+		return nil
+	}
+	if free >= 0 {
+		e := &rs.tabs.chans[free]
+		*e = rChan{key: p}
+		return e
+	}
+	rs.overflow = true
+	rs.tabs.sparerChan = rChan{key: p}
+	return &rs.tabs.sparerChan
+}
+
+//go:norace
+func (rs *RSched) chYield(site int) {
+	rs.cur.SyncOps++
+	rs.yield(site, 1)
+}
+
+//go:norace
+func (rs *RSched) chBlock(p unsafe.Pointer) (unsafe.Pointer, bool) {
+	t := rs.cur
+	t.blockedOn = p
+	rs.block(t)
+	t.blockedOn = nil
+	if t.rv {
+		t.rv = false
+		return unsafe.Pointer(t), true
+	}
+	return unsafe.Pointer(t), false
+}
+
+//go:norace
+func (rs *RSched) chWake(p unsafe.Pointer) { rs.wakeBlockedOn(p) }
+
+//go:norace
+func (rs *RSched) chClosed(p unsafe.Pointer) bool {
+	c := rs.chanFor(p, false)
+	return c != nil && c.closed
+}
+
+//go:norace
+func (rs *RSched) chSetClosed(p unsafe.Pointer) { rs.chanFor(p, true).closed = true }
+
+//go:norace
+func (rs *RSched) chMeet(p unsafe.Pointer, send bool) (active, ok bool) {
+	t := rs.cur
+	c := rs.chanFor(p, true)
+	mine, other := &c.sendq, &c.recvq
+	if !send {
+		mine, other = &c.recvq, &c.sendq
+	}
+	// a partner waiting on the other side?
+	if w := other.pop(); w != nil {
+		if t.queued {
+			mine.remove(t)
+		}
+		if c.sendq.head == nil && c.recvq.head == nil && !c.closed {
+			c.key = rTombstone
+		}
+		w.rv = true
+		w.state = stRunnable
+		rawWrite(w.wr) // out of band: w performs its half of the rendezvous, then waits to be scheduled
+		return true, true
+	}
+	if !t.queued {
+		mine.push(t)
+	}
+	return false, false
+}
+
+//go:norace
+func (rs *RSched) chLeave(p unsafe.Pointer, send bool) {
+	t := rs.cur
+	c := rs.chanFor(p, false)
+	if c == nil || !t.queued {
+		return
+	}
+	if send {
+		c.sendq.remove(t)
+	} else {
+		c.recvq.remove(t)
+	}
+}
+
+//go:norace
+func (rs *RSched) chPark(tok unsafe.Pointer) {
+	t := (*RTask)(tok)
+	rawRead(t.rd) // the scheduling wake-up; from here on t is the running task again
+}
